@@ -159,6 +159,18 @@ class Ctx:
         self.pc.append(lit)
         return choice
 
+    def choose(self, n):
+        """a solver-free n-way fork (used to pick a configuration)"""
+        pos = len(self.trail)
+        if pos < len(self.prefix):
+            c = self.prefix[pos]
+        else:
+            for i in range(n - 1, 0, -1):
+                self.eng.worklist.append(tuple(self.trail) + (i,))
+            c = 0
+        self.trail.append(c)
+        return c
+
     def feasible(self):
         return self._check()
 
@@ -269,7 +281,7 @@ def _worker_run(spec, prefixes, budget, deadline):
         return st, []
 
 
-def explore_parallel(spec, nproc=None, budget=40, time_limit=None, seed_paths=24, log=None):
+def explore_parallel(spec, nproc=None, budget=40, time_limit=None, seed_paths=24, log=None, initial=None):
     """spec = (module name, factory name, params).  The factory is called as
     factory(params) in each worker and must return fn(ctx).
     Returns (Stats, exhausted: bool)."""
@@ -280,9 +292,9 @@ def explore_parallel(spec, nproc=None, budget=40, time_limit=None, seed_paths=24
     modname, fname, params = spec
     mod = importlib.import_module(modname)
     fn = getattr(mod, fname)(params)
-    eng = Engine()
+    eng = Engine(worklist=initial)
     try:
-        done = eng.explore(fn, max_paths=seed_paths, deadline=deadline)
+        done = eng.explore(fn, max_paths=(0 if initial is not None and len(initial) >= nproc else seed_paths), deadline=deadline)
     except Inconclusive as e:
         total.errors.append("inconclusive: " + str(e))
         return total, False
